@@ -120,6 +120,47 @@ def cold_pair(payload):
     return _stream_pair(tuple(payload["job"]))
 
 
+def run_seq(payload):
+    """(in a pristine child) an ordered history of Mixed schedules in ONE process, each produced on both
+    planner paths: the tabulated path must agree with the memoised one whatever was tabulated before."""
+    out = []
+    for j in payload["seq"]:
+        o = _stream_pair(tuple(j))
+        out.append({"job": o["job"], "viol": o["viol"], "status": o["status"]})
+        if o["viol"]:
+            break
+    return out
+
+
+def sequences(tier, seed):
+    """Histories in every order of sizes: the pool runs the stream pairs in ascending (n, s), which a
+    planner that keeps tables from earlier schedules never notices. Here: descending n with ascending
+    s, ascending n with descending s, zig-zags, and Hypothesis-drawn permutations of small sizes."""
+    from hypothesis import strategies as st
+    seqs = []
+    stg = ("RAM", "DISK")
+    for top in (5, 8, 12, 20):
+        down = [(top - i, 1 + i, stg[i % 2]) for i in range(top - 2) if top - i >= 2]
+        seqs.append(down)                                   # fewer steps, more units
+        seqs.append(list(reversed(down)))                   # more steps, fewer units
+        seqs.append([(top, 1, "DISK"), (3, 2, "DISK"), (top, 2, "RAM"), (2, 1, "RAM"), (top + 1, top - 1, "DISK"), (4, 3, "RAM")])
+    for a in range(2, 8):
+        for b in range(2, 8):
+            if a != b:
+                seqs.append([(a, 1, "DISK"), (b, b - 1, "DISK")])
+                seqs.append([(a, a - 1, "RAM"), (b, 1, "RAM")])
+    one = st.tuples(st.integers(1, 14), st.integers(1, 8), st.sampled_from(stg)).map(lambda t: (t[0], max(min(1, t[0] - 1), min(t[1], t[0] + 1)), t[2]))
+    for q in C.generate(st.lists(one, min_size=3, max_size=7), 40 if tier == "quick" else 400, seed):
+        seqs.append(list(q))
+    return [[list(j) for j in q] for q in seqs]
+
+
+def _seq_jobs(seqs):
+    from .. import forkserver
+    cl = forkserver.client()
+    return [(q, cl.call("vlib.props.c16.run_seq", {"seq": q})) for q in seqs]
+
+
 COLD = {"quick": [(340, 336, "RAM")], "thorough": [(340, 336, "RAM"), (455, 450, "DISK")]}
 
 
@@ -132,6 +173,12 @@ def check_witness(data, show=False):
     w = data["witness"]
     if isinstance(w, dict) and w.get("cold"):
         return _cold_viol((w["n"], w["s"], w["storage"]))
+    if isinstance(w, dict) and "sequence" in w:
+        res = R.pristine_call("vlib.props.c16.run_seq", {"seq": w["sequence"]})
+        if show:
+            print("replaying in one fresh process: " + " ; then ".join("Mixed(%d,%d,%s) on both planner paths" % tuple(j) for j in w["sequence"]))
+        return [(("Mixed", pred), {"sequence": w["sequence"]}, detail + " [after %d earlier Mixed schedule(s) in the same process]" % (len(res) - 1), "sequence")
+                for pred, cfg, detail in res[-1]["viol"]] if len(res) == len(w["sequence"]) else []
     if data.get("kind") == "entry":
         n, s = w["n"], w["s"]
         cnt, bad = _table((max(n, s + 1), n, n))
@@ -193,6 +240,26 @@ def run(prop, args):
                             "stream_digest": out.get("digest"), "first_actions": out.get("head")})
         for pred, cfg, detail in out["viol"]:
             rep.add_violation(("Mixed", pred), cfg, detail)
+    seqs = sequences(tier, args.seed)
+    nseq = 0
+    for part in R.pmap(_seq_jobs, R.chunks(seqs, max(1, len(seqs) // 32 + 1)), chunksize=1):
+        for q, results in part:
+            nseq += 1
+            rep.evaluations += 2 * len(results)
+            if any(r["status"] == "inconclusive" for r in results):
+                rep.inconclusive += 1
+                continue
+            if len(q) >= 2:
+                rep.nontrivial.add(("sequence", C.key(q)))
+            last = results[-1]
+            for pred, cfg, detail in last["viol"]:
+                k = len(results)
+                if k == 1:
+                    rep.add_violation(("Mixed", pred), cfg, detail)
+                else:
+                    rep.add_violation(("Mixed", pred), {"sequence": q[:k]}, detail + " [after %d earlier Mixed schedule(s) in the same process]" % (k - 1), kind="sequence")
+    rep.exhaustive.append({"box": "ordered histories of Mixed schedules on both planner paths in one pristine process (descending/ascending/zig-zag sizes, every ordered pair of sizes 2..7, %d drawn permutations)" % (40 if tier == "quick" else 400),
+                           "cases": nseq, "exhaustive": False})
     for j, h in cold:
         out = R.pristine_wait(h)
         rep.evaluations += 2
@@ -212,6 +279,23 @@ def run(prop, args):
     def shrink(b, w):
         if b[0] != "Mixed":
             return None
+        if "sequence" in w:
+            def fails_seq(q):
+                res = R.pristine_call("vlib.props.c16.run_seq", {"seq": q})
+                return len(res) == len(q) and any(p == b[1] for p, _, _ in res[-1]["viol"])
+            q = list(w["sequence"])
+            if not fails_seq(q):
+                return None
+            i = 0
+            while i < len(q) - 1 and len(q) > 1:
+                cand = q[:i] + q[i + 1:]
+                if fails_seq(cand):
+                    q = cand
+                else:
+                    i += 1
+            res = R.pristine_call("vlib.props.c16.run_seq", {"seq": q})
+            d = [d for p, _, d in res[-1]["viol"] if p == b[1]]
+            return {"sequence": q}, d[0] + (" [after %d earlier Mixed schedule(s) in the same process]" % (len(q) - 1) if len(q) > 1 else "")
         if w.get("cold"):
             v = [x for x in _cold_viol((w["n"], w["s"], w["storage"])) if x[0][1] == b[1]]
             return (v[0][1], v[0][2]) if v else None
